@@ -181,11 +181,15 @@ def main():
         except Exception:  # noqa
             pass
         if second is not None:
-            b1 = _pk.loads(_pk.dumps(a1))
-            c1 = _cp.deepcopy(t1.Fe)
+            try:
+                b1 = _pk.loads(_pk.dumps(a1))
+                c1 = _cp.deepcopy(t1.Fe)
+            except Exception as e_:  # noqa
+                b1, c1 = e_, e_
             if b1 is not a1 or c1 is not t1.Fe:
                 fail("C10:pickle-restored-elsewhere:core:duplicate-name", "after a second PeriodicTable('q2') was created, pickle/deepcopy of atoms of the "
-                     "first 'q2' give other objects (Fe mass %r instead of 1000.0)" % getattr(c1, "mass", None),
+                     "first 'q2' give %s" % ("other objects (Fe mass %r instead of 1000.0)" % getattr(c1, "mass", None) if not isinstance(c1, Exception)
+                                                 else "%s: %s" % (type(c1).__name__, c1)),
                      history_text=["q2 = PeriodicTable('q2')", "PeriodicTable('q2') again", "pickle round trip of q2.Fe[56].ion[2]"])
             core.PRIVATE_TABLES["q2"] = t1
     except Exception as e:  # noqa
